@@ -220,7 +220,7 @@ def check_err(run: Run, prog: Program) -> None:
                       "classes that do not inherit from BaseException is not allowed` from the except "
                       "clause itself, so the switch to the other source never happens",
                       node=handler, file=m.file, instance=f"{m.qual}: handler around {who}.receive() is catchable")
-    if n < 5:
+    if n < 4:
         raise AnalysisError(f"C19.ERR: only {n} receive() sites found in MetricFetcher")
 
 
@@ -370,9 +370,10 @@ def check_sync(run: Run, prog: Program, rule: str = "C19.SYNC") -> None:
     LATEST = "self._latest_fallback_sample"
     PTS = f"{prim}.timestamp"
 
-    def is_param(e: ast.AST, nid: int, name: str) -> bool:
-        o = fl.origin(e, nid)
-        return bool(o) and all(q.kind == "param" and q.name == name for q in o)
+    def is_param(e: ast.AST, nid: int | None, name: str, flow: Flow | None = None) -> bool:
+        """`e` denotes this function's parameter `name` (also from inside a private helper it was passed to)."""
+        o = (flow or fl).origin(e, nid)
+        return bool(o) and all(q.kind == "param" and q.name == name and q.flow is fl for q in o)
 
     def roles(test: ast.AST, nid: int) -> dict[str, str]:
         """Operands that denote the primary sample's timestamp (directly or through a local; the
@@ -387,22 +388,48 @@ def check_sync(run: Run, prog: Program, rule: str = "C19.SYNC") -> None:
                     out[u(x)] = PTS
         return out
 
-    recv = [nid for nid, c in fl.calls(lambda c: isinstance(c.func, ast.Attribute) and c.func.attr == "receive")
-            if is_param(c.func.value, nid, fb)]  # type: ignore[union-attr]
-    if len(recv) < 2:
+    # reads of the fallback stream: directly here, or inside a private helper the fallback fetcher is handed to
+    def stream_calls(flow: Flow) -> list[tuple[int, ast.Call]]:
+        return flow.calls(lambda c: isinstance(c.func, ast.Attribute) and c.func.attr in ("receive", "fetch_next", "consume"))
+
+    sites: list[tuple[Flow, int, ast.Call]] = []   # every textual receive on the fallback
+    foreign: list[ast.Call] = []                   # ... and on anything else
+    recv: list[int] = []                           # nodes of this function at which the fallback is read
+    for nid, c in stream_calls(fl):
+        if is_param(c.func.value, nid, fb):  # type: ignore[union-attr]
+            sites.append((fl, nid, c))
+            recv.append(nid)
+        else:
+            foreign.append(c)
+    seen_helpers: set[int] = set()
+    for nid, c in fl.calls(lambda c: True):
+        ch = fl.child(c, nid)
+        if ch is None:
+            continue
+        inner = [(n2, c2) for n2, c2 in stream_calls(ch)]
+        if any(is_param(c2.func.value, n2, fb, ch) for n2, c2 in inner):  # type: ignore[union-attr]
+            recv.append(nid)
+        if id(ch.fn.node) in seen_helpers:
+            continue
+        seen_helpers.add(id(ch.fn.node))
+        for n2, c2 in inner:
+            if is_param(c2.func.value, n2, fb, ch):  # type: ignore[union-attr]
+                sites.append((ch, n2, c2))
+            else:
+                foreign.append(c2)
+    recv = sorted(set(recv))
+    if len(recv) < 2 or not sites:
         raise AnalysisError(f"{fn.qual}: expected the initial and the catch-up receive, found {len(recv)}")
-    for r in recv:
-        s = cfg.nodes[r].ast
+    for sflow, r, _c in sites:
+        s = sflow.cfg.nodes[r].ast
         ok = isinstance(s, (ast.Assign, ast.AnnAssign)) and u(s.targets[0] if isinstance(s, ast.Assign) else s.target) == LATEST \
-            and cfg.is_await(r) and isinstance(s.value, ast.Await)
+            and sflow.cfg.is_await(r) and isinstance(s.value, ast.Await)
         run.check(ok, rule, fn.qual, s,
                   "a sample read from the fallback stream is not stored in _latest_fallback_sample at once: "
                   "if this call returns early the sample is lost and the fallback can never catch up with "
                   "the primary (unbounded start-up delay)", node=s, file=fn.file)
     # primary stream is never touched here
-    prim_recv = [c for nid, c in fl.calls(lambda c: isinstance(c.func, ast.Attribute) and c.func.attr in ("receive", "fetch_next"))
-                 if not is_param(c.func.value, nid, fb)]  # type: ignore[union-attr]
-    run.check(not prim_recv, rule, fn.qual, "only the fallback stream is advanced",
+    run.check(not foreign, rule, fn.qual, "only the fallback stream is advanced",
               "the synchronisation advances something other than the fallback stream", node=fn.node, file=fn.file)
     older = [t for t in cfg.nodes if t.kind == "test" and t.ast is not None and t.id in fl.live
              and canon_total(t.ast, subst=roles(t.ast, t.id)) == ("<", PTS, f"{LATEST}.timestamp")]
